@@ -42,10 +42,10 @@ type cliEvent struct {
 // cliRecorder holds the state-changing events of one client in the order the
 // client made them (both sources fire while the client holds its write lock).
 type cliRecorder struct {
-	mu    sync.Mutex
-	evs   []cliEvent
-	n     int64 // == len(evs), read by readers without the mutex
-	noVer int64 // applied events whose version tag could not be read
+	mu        sync.Mutex
+	evs       []cliEvent
+	n         int64 // == len(evs), read by readers without the mutex
+	noVer     int64 // applied events whose version tag could not be read
 	fetchErrs int64 // "client/metadata got error from broker …" lines: a broker was tried and failed
 }
 
